@@ -282,7 +282,14 @@ def gen_request(r, idx, nonce, feats, opts):
     can_body = method not in ('HEAD', 'GET', 'TRACE', 'DELETE', 'OPTIONS') or r.chance(0.1)
     trailers = None
     if can_body and r.chance(0.6):
-        if opts.get('urlencoded_bodies', True) and r.chance(0.35):
+        if opts.get('multipart', True) and r.chance(0.15):
+            from . import mpart
+            mp = mpart.gen_multipart(r, feats, opts.get('mp_opts'))
+            body = mp['body']
+            ctype = mp['ctype']
+            t['multipart'] = mp
+            feats.add('multipart')
+        elif opts.get('urlencoded_bodies', True) and r.chance(0.35):
             s, bpairs = gen_params(r, feats)
             body = s.encode('latin-1')
             ctype = 'application/x-www-form-urlencoded'
@@ -291,7 +298,7 @@ def gen_request(r, idx, nonce, feats, opts):
             body = gen_body_bytes(r, 0, opts.get('max_body', 300))
             ctype = r.pick([None, 'text/plain', 'application/octet-stream'])
         if ctype:
-            hb.add(r.pick(['Content-Type', 'content-type']), ctype + (r.pick(['', '; charset=utf-8']) if ctype != 'application/x-www-form-urlencoded' else ''))
+            hb.add(r.pick(['Content-Type', 'content-type']), ctype + (r.pick(['', '; charset=utf-8']) if ctype in ('text/plain', 'application/octet-stream') else ''))
         if version == 'HTTP/1.1' and r.chance(0.4):
             framing = 'chunked'
             hb.add('Transfer-Encoding', r.pick(['chunked', 'chunked', 'Chunked']))
@@ -350,7 +357,7 @@ def gen_response(r, idx, nonce, req_truth, feats, opts, last):
     elif nobody:
         pass
     else:
-        body = (b'id=%d-%s;' % (idx, nonce.encode())) + gen_body_bytes(r, 0, opts.get('max_body', 300))
+        body = ((b'id=%d-%s;' % (idx, nonce.encode())) if r.chance(0.5) else b'') + gen_body_bytes(r, 0, opts.get('max_body', 300))
         choice = r.randrange(3)
         if choice == 0 and version == 'HTTP/1.1':
             framing = 'chunked'
